@@ -10,6 +10,7 @@
   included, the shipped automaton accepts exactly the words the grammar's rule matches.
 -/
 import Blackbird.Lemmas.Bisim
+import Blackbird.Lemmas.Longest
 import Gen.ATNCert
 import Gen.Artefacts
 import Gen.G4
@@ -106,5 +107,27 @@ theorem C14_parser_rule_language (i : Nat) (hi : i < Gen.parserAllRules.length) 
 
 /-- the only rule given in rewritten form is `expression` -/
 theorem C14_left_recursive_rules : Gen.leftRecursiveRules = ["expression"] := by decide +kernel
+
+
+/-- **The model lexer's candidates are the shipped automaton's longest matches.** For every token rule
+of the grammar and every input, the length the model lexer's rule scan returns (`Re.longest`, what
+`bestRule` compares across the 61 rules) is the length of the longest prefix that the shipped lexer
+automaton accepts for that rule; when it returns nothing, the automaton accepts no prefix. -/
+theorem C14_candidate_is_automaton_longest (name : String) (re : Re) (skip : Bool)
+    (h : (name, re, skip) ∈ Gen.lexRules) (s : List Char) :
+    ∃ i, i < Gen.lexAllRules.length ∧ Gen.lexAllRules[i]? = some (name, re) ∧
+      (∀ n, Re.longest re s = some n →
+        ruleAccepts Gen.lexerATN i (codes (s.take n)) = true ∧
+        ∀ k, n < k → k ≤ s.length → ruleAccepts Gen.lexerATN i (codes (s.take k)) = false) ∧
+      (Re.longest re s = none → ∀ k, k ≤ s.length → ruleAccepts Gen.lexerATN i (codes (s.take k)) = false) := by
+  obtain ⟨i, hi, hget, hlang⟩ := C14_token_rule_language name re skip h
+  obtain ⟨h1, h2⟩ := longest_spec re s
+  refine ⟨i, hi, hget, ?_, ?_⟩
+  · intro n hn
+    obtain ⟨ha, hb⟩ := h1 n hn
+    exact ⟨by rw [hlang]; exact ha, fun k hk hks => by rw [hlang]; exact hb k hk hks⟩
+  · intro hnone k hks
+    rw [hlang]
+    exact h2 hnone k hks
 
 end Blackbird
